@@ -210,6 +210,8 @@ def storage_dump(prog, world, conc):
         if isinstance(v, MapStore):
             for parts, val in v.entries:
                 out.append([map_key(ns, [conc.val(p) for p in parts]).hex(), sd.tj(conc.val(val))])
+        elif isinstance(v, Agg) and v.name == 'cw2::ContractVersion':
+            out.append([ns.encode().hex(), {'contract': conc.string(v.fields[0]), 'version': conc.string(v.fields[1])}])
         else:
             out.append([ns.encode().hex(), sd.tj(conc.val(v))])
     for ns, hs in world.hooks.items():
